@@ -187,7 +187,7 @@ func (g *randGen) prop(gt, term string, ft reflect.Type, depth int) J {
 		return J{"k": "source", "p": p}
 	case "endpoints":
 		p := J{}
-		for _, t := range []string{"uploadMedia", "oauthAuthorizationEndpoint", "oauthTokenEndpoint", "provideClientKey", "signClientKey", "sharedInbox"} {
+		for _, t := range []string{"uploadMedia", "oauthAuthorizationEndpoint", "oauthTokenEndpoint", "provideClientKey", "signClientKey", "sharedInbox", "proxyUrl"} {
 			if g.rng.Intn(2) == 0 {
 				p[t] = J{"k": "iri", "iri": g.iriStr()}
 			}
